@@ -190,7 +190,7 @@ fn main() -> ExitCode {
     } = compilation_state;
 
     // Only invoke the plugins if there were no errors in the Slice files.
-    if !diagnostics.has_errors() {
+    if !diagnostics.has_errors() && !slice_options.dry_run {
         // Encode the request which will be sent to each of the code-generation plugins.
         let encoded_request = match encode_generate_code_request(&files) {
             Ok(result) => result,
